@@ -157,6 +157,23 @@ class Directive:
         self.exec_const = None
 
 
+def select_variant(text, variant):
+    """`//@ only a b` ... `//@ endonly` sections are kept only for the listed variants (a unit template can be verified as several
+    smaller Verus inputs - same real code, different subsets of the postcondition clauses - to keep each SMT query small)"""
+    out, keep = [], True
+    for ln in text.split("\n"):
+        st = ln.strip()
+        if st.startswith("//@ only "):
+            keep = variant in st.split()[2:]
+            continue
+        if st == "//@ endonly":
+            keep = True
+            continue
+        if keep:
+            out.append(ln)
+    return "\n".join(out)
+
+
 def parse_template(text, unit_path):
     """returns list of chunks: ('text', str, first_line_no) | ('extract', Directive)"""
     chunks, lines, i = [], text.split("\n"), 0
@@ -571,10 +588,12 @@ def render_data(doc, it, parent, d, relfile, report):
     return pieces
 
 
-def compose(unit_path, repo_root, twin=False):
+def compose(unit_path, repo_root, twin=False, variant=None):
     """returns dict(text, srcmap (list per generated line), report)"""
     with open(unit_path) as f:
         ttext = f.read()
+    if variant is not None:
+        ttext = select_variant(ttext, variant)
     header, chunks = parse_template(ttext, unit_path)
     report = {"unit": os.path.basename(unit_path)[:-3], "items": [], "rewrites": {}, "lost_anchors": [], "props": header["props"],
               "fn_props": {}, "extracted_fns": [], "repo_lines": 0}
